@@ -666,7 +666,7 @@ func stress(seed int64, ms, mix, procs int, stdout *os.File) {
 }
 
 func main() {
-	mode := flag.String("mode", "stress", "stress | replay | gates")
+	mode := flag.String("mode", "stress", "stress | replay | gates | minute")
 	seed := flag.Int64("seed", 1, "seed")
 	ms := flag.Int("ms", 300, "stress duration in ms")
 	mix := flag.Int("mix", 0, "goroutine mix")
@@ -683,6 +683,8 @@ func main() {
 		stress(*seed, *ms, *mix, *procs, realStdout)
 	case "replay":
 		replay(*sched, realStdout)
+	case "minute":
+		minuteScenario(realStdout)
 	case "gates":
 		fmt.Fprintln(realStdout, gatesReport())
 	default:
